@@ -106,7 +106,25 @@ func c18Cluster(name string, amax, cmax int32) *proxyv1alpha1.UpstreamCluster {
 	}
 }
 
+// The virtual clock is imposed by rewriting the cached heartbeat times just before a pass; the pass
+// then compares them with the real time.Now().  If the process is descheduled between the two for
+// longer than the margin the generator keeps around the 3 s boundary, the ages the pass saw are not
+// the virtual ones: such a run is discarded and the case is run again from scratch (the decision
+// depends only on the measured overrun, never on what was observed).
+const clockMargin = 200 * time.Millisecond
+
 func runC18(raw json.RawMessage) interface{} {
+	for attempt := 0; attempt < 20; attempt++ {
+		obs, overrun := runC18Once(raw)
+		if !overrun {
+			return obs
+		}
+	}
+	panic("virtual clock overrun in 20 consecutive attempts")
+}
+
+func runC18Once(raw json.RawMessage) (interface{}, bool) {
+	overrun := false
 	var c c18Case
 	must(json.Unmarshal(raw, &c))
 	// API-backed store in write-through mode: what the leader records is what the next leader loads
@@ -138,6 +156,7 @@ func runC18(raw json.RawMessage) interface{} {
 	for _, op := range c.Ops {
 		st := c18Step{Res: "nil"}
 		u, i := op.U.S(), op.I.S()
+		passStart := time.Now()
 		if op.Op == "ticktimeout" || op.Op == "tickunknown" {
 			syncTimes()
 		}
@@ -238,9 +257,15 @@ func runC18(raw json.RawMessage) interface{} {
 		case "ticktimeout":
 			base := runtime.NumGoroutine()
 			rig.v.CleanupTimeoutClient()
+			if time.Since(passStart) > clockMargin {
+				overrun = true
+			}
 			// the pass deletes in spawned goroutines: wait until they are gone
-			deadline := time.Now().Add(3 * time.Second)
-			for runtime.NumGoroutine() > base && time.Now().Before(deadline) {
+			deadline := time.Now().Add(120 * time.Second)
+			for runtime.NumGoroutine() > base {
+				if time.Now().After(deadline) {
+					panic("goroutines of the timeout pass did not finish")
+				}
 				time.Sleep(200 * time.Microsecond)
 			}
 		case "tickunknown":
@@ -365,7 +390,7 @@ func runC18(raw json.RawMessage) interface{} {
 		}
 		steps = append(steps, st)
 	}
-	return map[string]interface{}{"steps": steps}
+	return map[string]interface{}{"steps": steps}, overrun
 }
 
 func main() { runCases(runC18) }
